@@ -22,9 +22,8 @@ from concurrent.futures import ThreadPoolExecutor
 import vp
 
 KF_ALL = ["KF_XuperSignSingleKey", "KF_MarkedRefSoftAccept", "KF_GhostAccountInitiator", "KF_V1OmitsHDInfo",
-          "KF_V12OmitsEmpty", "KF_MarkedFlagUncovered", "KF_CoinbaseRider"]
+          "KF_V12OmitsEmpty", "KF_MarkedFlagUncovered", "KF_CoinbaseRider", "KF_PlayPooledIdUnchecked"]
 OWN_KNOWN = os.path.join(vp.VERIF, "findings", "C07.known")
-BATCH = 25000
 
 
 def known_deviations():
@@ -79,6 +78,11 @@ def add_stats(acc, st):
 def validate(run, trace, name, kf_consts, known, ops_of):
     """TLC validation of one ndjson file.  Returns True if every line is explained."""
     res = run.tlc_validate("Trace_TxAuth.tla", "Trace_TxAuth.cfg", trace, name=name + "_val", consts=kf_consts, timeout=1500)
+    return judge(run, res, trace, kf_consts, known, ops_of)
+
+
+def judge(run, res, trace, kf_consts, known, ops_of):
+    """Bookkeeping and verdict for one validated ndjson file (main thread)."""
     run.cov["trace_events"] = run.cov.get("trace_events", 0) + res["len"]
     run.cov["lines_allowed_but_not_as_transcribed"] = run.cov.get("lines_allowed_but_not_as_transcribed", 0) + (res.get("inexact") or 0)
     if res["hw"] == res["len"] + 1:
@@ -93,27 +97,48 @@ def validate(run, trace, name, kf_consts, known, ops_of):
     if div.get("op") in ("tok", "ref"):
         raise vp.Undecided("the encoder grammar of the specification no longer describes the code (%s line %s: expected %s, real %s)"
                            % (div.get("op"), json.dumps({k: ev.get(k) for k in ("v", "signs", "st")}), json.dumps(div.get("exp"))[:300], json.dumps(div.get("act"))[:300]))
-    what = {"case": "State.VerifyTx on the concretised transaction", "cb": "peer block whose coinbase transaction carries a rider (ConfirmBlock + PlayAndRepost)", "mut": "State.VerifyTx after the field mutation",
+    if div.get("op") == "fixture":
+        raise vp.Undecided("the access-control rules read back from the fixture chain are not the rules of spec/TxAuth.tla: %s" % json.dumps(ev)[:600])
+    what = {"case": "State.VerifyTx / Chain.SubmitTx on the concretised transaction",
+            "blk": "the transaction inside a peer block (Ledger.ConfirmBlock, then State.Walk / State.PlayAndRepost), content in effect afterwards",
+            "cb": "peer block whose coinbase transaction carries a rider (ConfirmBlock + PlayAndRepost)", "mut": "State.VerifyTx / Chain.SubmitTx after the field mutation",
             "pair": "real digests / ids of two transactions that differ in a covered field",
             "shift": "real digests / ids after moving a byte across a field boundary"}.get(div.get("op"), div.get("op"))
     desc = "%s: specification allows %s, real code: %s; %s" % (what, json.dumps(div.get("exp")), json.dumps(div.get("act")),
                                                                json.dumps({k: v for k, v in ev.items() if k not in ("tr", "i")}, sort_keys=True)[:900])
     run.violation(desc, {"property": "C07", "driver": "c07 " + ops_of, "seed": run.seed, "tier": run.tier, "known_deviations_enabled": sorted(kf_consts),
-                         "program": [{k: v for k, v in ev.items() if k in ("op", "t", "m", "r", "hon", "v", "sec", "a", "b", "j")}],
+                         "program": [{k: v for k, v in ev.items() if k in ("op", "t", "m", "r", "hon", "v", "sec", "a", "b", "j", "pool", "via")}],
                          "first_unexplained_event": ev, "expected": div.get("exp"), "actual": div.get("act")})
     return False
 
 
-def run_cases(run, ops, name, kf_consts, known, stats):
+def run_shard(run, ops, name, kf_consts):
+    """One driver process over ops and the TLC validation of its recording (worker thread: no verdicts here)."""
     d = run.sub(name + "_in")
     for f in os.listdir(d):
         os.remove(os.path.join(d, f))
     with open(os.path.join(d, "b_0.json"), "w") as f:
         json.dump(ops, f)
     trace = os.path.join(run.work, name + ".ndjson")
-    add_stats(stats, last_json(run.harness(["cases", "-in", d, "-out", trace])))
-    ok = validate(run, trace, name, kf_consts, known, "cases")
-    os.remove(trace)
+    st = last_json(run.harness(["cases", "-in", d, "-out", trace, "-tag", name]))
+    res = run.tlc_validate("Trace_TxAuth.tla", "Trace_TxAuth.cfg", trace, name=name + "_val", consts=kf_consts, timeout=1500)
+    return st, res, trace
+
+
+def run_cases(run, ops, name, kf_consts, known, stats, shards=1):
+    """ops on the real code in `shards` parallel driver processes (each builds its own fixture chain), each recording
+    validated by TLC; verdicts in shard order."""
+    parts = [ops[k::shards] for k in range(shards)]
+    parts = [p for p in parts if p]
+    with ThreadPoolExecutor(max_workers=max(1, len(parts))) as pool:
+        futs = [pool.submit(run_shard, run, part, "%s_%d" % (name, k), kf_consts) for k, part in enumerate(parts)]
+        outs = [f.result() for f in futs]
+    ok = True
+    for st, res, trace in outs:
+        add_stats(stats, st)
+        if ok and not judge(run, res, trace, kf_consts, known, "cases"):
+            ok = False
+        os.remove(trace)
     return ok
 
 
@@ -129,7 +154,7 @@ def check(run):
         run.seed = rp.get("seed", run.seed)
         ops = rp["program"]
         stats = {}
-        if ops and ops[0].get("op") in ("case", "mut", "cb"):
+        if ops and ops[0].get("op") in ("case", "mut", "cb", "blk"):
             run_cases(run, ops, "replay", kf_consts, known, stats)
         else:
             raise vp.Undecided("replay of encoder pairs: run the check (the pair is enumerated deterministically)")
@@ -137,12 +162,15 @@ def check(run):
         run.finish()
 
     # (1b) every known deviation is a real deviation of the model (small JVMs beside the main model check)
-    pool = ThreadPoolExecutor(max_workers=3)
-    futs = [pool.submit(actual_mc, run, kf) for kf in KF_ALL if kf in known]
-    # (1) the design: IDEAL holds all property invariants
-    run.tlc_mc("TxAuth.tla", "MC_TxAuth.cfg" if quick else "MC_TxAuth_thorough.cfg", timeout=800, workers=8)
-    run.cov["tlc_counterexamples_on_actual"] = [f.result() for f in futs]
-    pool.shutdown()
+    design = ThreadPoolExecutor(max_workers=4)
+    futs = [design.submit(actual_mc, run, kf) for kf in KF_ALL if kf in known]
+    # (1) the design: IDEAL holds all property invariants (runs beside the generation and the driver)
+    mc = design.submit(run.tlc_mc, "TxAuth.tla", "MC_TxAuth.cfg" if quick else "MC_TxAuth_thorough.cfg", None, 6, 800)
+
+    def design_done():
+        mc.result()
+        run.cov["tlc_counterexamples_on_actual"] = [f.result() for f in futs]
+        design.shutdown()
     # minimal reproductions on the real code (plain facts; evidence)
     run.cov["real_code_reproductions"] = last_json(run.harness(["probe"]))
 
@@ -166,17 +194,50 @@ def check(run):
         raise vp.Undecided("the Transaction schema differs from the field table of spec/TxAuth.tla (it cannot be decided mechanically "
                            "whether a new field is semantic): unknown to the table %s, stale in the table %s, kind changed %s" % (unknown, stale, changed))
 
-    # (3) + (4) cases and mutations on the real code, validated by TLC
+    # block-borne transactions: cases and mutations combined with the block plans (pool x via) TLC lists.
+    # thorough: every mutation and every honest case under every plan; quick: every mutation against the pool that
+    # holds its base (Walk / PlayAndRepost alternating), every honest case under two plans; a sample of the rest.
+    nomut, pools, vias = behs[0][0]["nomut"], behs[0][0]["pools"], behs[0][0]["vias"]
+    if sorted(pools) != ["base", "none"] or sorted(vias) != ["play", "walk"]:
+        raise vp.Undecided("unexpected block plans in the generated files")
+    only_muts = [m for m in muts if m["op"] == "mut"]
+    honest = [c for c in cases if c.get("hon")]
+    others = [c for c in cases if not c.get("hon")]
+    blks = []
+
+    def blk(t, m, pool, via):
+        blks.append({"op": "blk", "t": t, "m": m, "pool": pool, "via": via})
+    for j, m in enumerate(only_muts):
+        v = (j + run.seed) % 2
+        if quick:
+            blk(m["t"], m["m"], "base", vias[v])
+            if j % 4 == 0:
+                blk(m["t"], m["m"], "none", vias[(j // 4 + run.seed) % 2])
+        else:
+            for pool in pools:
+                for via in vias:
+                    blk(m["t"], m["m"], pool, via)
+    for j, c in enumerate(rnd.sample(honest, min(len(honest), 700 if quick else 2500))):
+        v = (j + run.seed) % 2
+        if quick:
+            blk(c["t"], nomut, "base", vias[v])
+            blk(c["t"], nomut, "none", vias[1 - v])
+        else:
+            for pool in pools:
+                for via in vias:
+                    blk(c["t"], nomut, pool, via)
+    for j, c in enumerate(rnd.sample(others, min(len(others), 800 if quick else 8000))):
+        blk(c["t"], nomut, "base" if j % 5 == 0 else "none", vias[(j + run.seed) % 2])
+    run.cov["block_ops_enumerated"] = len(blks)
+
+    # (3) + (4) cases, mutations and block ops on the real code, validated by TLC
     stats = {}
     rnd.shuffle(cases)              # the seed decides the order (nonces, which funded output a case names) and the keys
-    ops = muts + cases
-    ok = True
-    for k in range(0, len(ops), BATCH):
-        if not run_cases(run, ops[k:k + BATCH], "c%d" % (k // BATCH), kf_consts, known, stats):
-            ok = False
-            break
+    ops = muts + blks + cases
+    ok = run_cases(run, ops, "c", kf_consts, known, stats, shards=4 if quick else 8)
     run.cov["driver"] = stats
     if not ok:
+        design_done()
         run.finish()
 
     # part (c): encoder grammars
@@ -209,21 +270,47 @@ def check(run):
         "rule evaluation beyond one-level threshold rules is C11's subject; contract method rules are absent on the fixture chain",
         "a verifier that panics is recorded as a rejection (%d panics in this run)" % stats.get("panics", 0),
     ]
+    design_done()
     if run.violations or not ok:
         run.finish()
     untouched = [f["name"] for f in table if not stats.get("touched", {}).get(f["name"])]
     if untouched:
         raise vp.Undecided("fields of the specification's table no enumerated mutation touched on the real protobuf: %s" % untouched)
     by = stats.get("by_form", {})
-    n_cases, n_ok, n_rej, n_form = (7000, 300, 5000, 250) if quick else (100000, 1000, 90000, 800)
+    n_cases, n_ok, n_rej, n_form = (15000, 600, 12000, 250) if quick else (150000, 1400, 140000, 800)
     req = {"cases": (stats.get("cases", 0), n_cases), "accepted": (stats.get("by_res", {}).get("ok", 0), n_ok),
-           "rejected": (stats.get("by_res", {}).get("rej", 0), n_rej), "honest_accepted": (stats.get("honest_accepted", 0), 200),
+           "rejected": (stats.get("by_res", {}).get("rej", 0), n_rej), "honest_accepted": (stats.get("honest_accepted", 0), 500),
            "mutations_applied": (stats.get("mutations", 0), 1500), "mutations_rejected": (stats.get("mut_res", {}).get("rej", 0), 1200),
            "schema_fields_walked": (len(real), len(table)), "schema_fields_touched": (len(table) - len(untouched), len(table)),
            "grammar_token_streams": (stats.get("gram_tok_lines", 0), 200), "grammar_v3_preimages": (stats.get("gram_ref_lines", 0), 200),
            "grammar_structure_pairs": (stats.get("gram_pair_lines", 0), 20000)}
+    # the signer-list / account-rule / aggregated-signature families
+    fam = stats.get("families", {})
+    for f, mn, mn_ok in (("signer_uri_listed_twice", 1500, 100), ("key_through_two_uris", 400, 50), ("account_initiator_signed_twice_by_one_key", 300, 0),
+                         ("repeated_signer_and_account_owned_input", 150, 2), ("input_of_account_T", 40, 3), ("input_of_account_L", 40, 0),
+                         ("input_of_account_S", 40, 1), ("input_of_account_K", 40, 2), ("xsign_account_initiator", 2000, 0),
+                         ("xsign_account_initiator_named_in_signers", 1000, 0), ("xsign_account_initiator_not_named", 1000, 0),
+                         ("xsign_account_owned_input", 400, 3)):
+        req["family_" + f] = (fam.get(f, 0), mn)
+        if mn_ok:
+            req["family_" + f + "_accepted"] = (fam.get(f + ":ok", 0), mn_ok)
+    # the engine entry: every transaction State.VerifyTx did not accept was also handed to Chain.SubmitTx
+    sub = stats.get("submit", {})
+    req["submit_tx_asked"] = (sum(sub.values()), n_rej)
+    # block-borne transactions
+    bb = stats.get("block_by", {})
+    req["block_ops"] = (stats.get("block_ops", 0), 3500 if quick else 14000)
+    for kind in ("case", "mut"):
+        for pool in ("none", "base"):
+            for via in ("walk", "play"):
+                req["block_%s_%s_%s" % (kind, pool, via)] = (bb.get("%s/%s/%s" % (kind, pool, via), 0), 60 if quick else 800)
+    req["block_pool_holds_the_base"] = (bb.get("pooled_in", 0), 1500 if quick else 4000)
+    for via in ("walk", "play"):
+        req["block_changed_entry_under_pooled_id_" + via] = (bb.get("changed_entry_under_pooled_id/" + via, 0), 250 if quick else 800)
+    req["block_accepted_entry_in_effect"] = (sum(v for k, v in bb.items() if ":ok:e" in k), 500)
+    req["block_refused_nothing_in_effect"] = (sum(v for k, v in bb.items() if ":rej:n" in k or ":rej:p" in k or ":rej:np" in k), 800)
     req["coinbase_blocks_played"] = (sum(v for k, v in stats.get("by_res", {}).items() if k.startswith("cb:")), 2)
-    for f in ("address", "multi-address", "multi-account-uris", "account-initiator", "account-initiator+signers", "xsign0", "xsign2"):
+    for f in ("address", "multi-address", "multi-account-uris", "account-initiator", "account-initiator+signers", "xsign0", "xsign1", "xsign2"):
         req["form_" + f] = (by.get(f, 0), n_form)
     for v in ("flip", "clear", "append", "inc", "drop", "dup", "swap", "add", "nil", "addkey", "delkey", "chval"):
         for s in ("none", "fixid"):
